@@ -247,9 +247,9 @@ func (a *Agent) UpdatePeers(ctx context.Context, p pool.Pool) error {
 			lookup[uri.ID()] = uri.RemoteHost()
 		}
 
-		// Mark any non-active peers as invalid. These should be a superset of
-		// the original update.InvalidPeers, so we truncate it first.
-		update.InvalidPeers = update.InvalidPeers[:0]
+		// Mark any non-active local peers as invalid, in addition to the peers
+		// that the pool declared invalid (those are not necessarily among our
+		// current peers anymore, but they still need to be un-trusted).
 		for _, p := range peers {
 			uri, err := ethnode.ParseNodeURI(p.EnodeURI())
 			if err != nil {
